@@ -72,6 +72,9 @@ def all_params(desc):
     return None
 
 
+_CALLS = [0]
+
+
 def do_step(kind, retain, chunk, b, desc, torchjd_side, listed, lists="default"):
     """Runs one step on a built graph.  Returns None or the exception."""
     from torchjd import backward, mtl_backward
@@ -82,14 +85,21 @@ def do_step(kind, retain, chunk, b, desc, torchjd_side, listed, lists="default")
     try:
         if kind in ("bw", "mtl") and torchjd_side:
             agg = aggs.make({"name": "Sum"}, torch.float64)
+            _CALLS[0] += 1
+            positional = _CALLS[0] % 3 == 0  # every third call passes its options BY POSITION, in the documented order
             if kind == "bw":
-                backward(b.losses, agg, inputs=params, retain_graph=retain, parallel_chunk_size=k)
+                if positional:
+                    backward(b.losses, agg, params, retain, k)
+                else:
+                    backward(b.losses, agg, inputs=params, retain_graph=retain, parallel_chunk_size=k)
             elif lists == "union":
                 # explicit parameter lists that OVERLAP although the heads share no graph node: every task lists the union of
                 # all tasks' parameters (the ones a loss does not depend on just receive zeros) - same nodes touched as the defaults
                 union = [C02.leaf_of(b, list(r)) for r in sorted({tuple(x) for refs in task_l for x in refs})]
                 mtl_backward(b.losses, list(b.features), agg, tasks_params=[list(union) for _ in b.losses],
                              shared_params=[C02.leaf_of(b, r) for r in shared_l], retain_graph=retain, parallel_chunk_size=k)
+            elif positional:
+                mtl_backward(b.losses, list(b.features), agg, None, None, retain, k)
             else:
                 mtl_backward(b.losses, list(b.features), agg, retain_graph=retain, parallel_chunk_size=k)
         elif kind in ("bw", "mtl", "ag_bw"):
